@@ -90,25 +90,36 @@ Theorem C16_timeout_seconds_clamped :
 Proof. exact save_init_timeout_clamped. Qed.
 Print Assumptions C16_timeout_seconds_clamped.
 
-(* C16_csv_fixpoint.  Full statement: parse_csv (render_csv l) = Ok l and it renders back to the
-   same text, for every server list a channel can hold.  Proved for lists whose servers use one
-   port for UDP and TCP (the plain form  addr:port / [addr]:port%iface ), under the per-address
-   premise addr_good (inet_pton (inet_ntop a) = a and the character shape of inet_ntop output;
-   checked by computation in C16_csv_fixpoint_inhabited, sampled on the real functions by the
-   correspondence run).  Missing: servers with differing UDP/TCP ports (dns:// form): shown on a
-   concrete servers in C16_csv_uri_example (incl. interface br-lan, fixed by
-   fixes/C16-uri-scope-charset.patch), compared on every generated case, and still REFUTED for
-   link-local servers whose interface name has characters that are not valid in a URI authority,
-   such as the alias interface "eth0:1" (C16_csv_fixpoint_refuted). *)
-Theorem C16_csv_fixpoint_partial : forall nf ifs flags cudp ctcp l txt,
+(* C16_csv_fixpoint: parse_csv (render_csv l) = Ok l, and what was parsed renders back to the same
+   text, for every server list that the text form can express -- both the plain form
+   addr:port / [addr]:port%iface (one port for UDP and TCP) and the dns:// form
+   dns://[addr%iface]:udp?tcpport=tcp (differing ports).  server_ok is that domain: ports in
+   1..65535, an address outside fec0::/10, an interface name (at most 15 characters of the
+   interface character set) exactly on link-local addresses, and for the dns:// form an interface
+   name of RFC 3986 unreserved characters.  Outside the domain the statement is false for the code
+   as it is: C16_csv_fixpoint_refuted (an interface name such as "eth0:1" with differing ports
+   cannot be rendered, finding csv-unrenderable) and C16_csv_sitelocal_refuted (a fec0::/10 server
+   set through the binary API renders but is dropped by the parser, open finding).
+   The address functions are abstract: addr_good / addr_family_ok (inet_pton (inet_ntop a) = a,
+   the character shape of inet_ntop output, and inet_pton(AF_INET6) accepting exactly the IPv6
+   texts) are premises per address, checked by computation in C16_csv_fixpoint_inhabited and
+   sampled on the real functions by the correspondence run (fn,f=addr cases for the round trip
+   and the shape; the bracket decision of the dns:// form in every case with differing ports). *)
+Theorem C16_csv_fixpoint : forall nf ifs flags cudp ctcp l txt,
   Forall (server_ok nf ifs) l ->
   ForallOrdPairs (fun a b => sconf_match cudp ctcp (entry_of b) (entry_of a) = false) l ->
   (Z.testbit flags 1 = true -> (List.length l <= 1)%nat) ->
   get_servers_csv nf l = Ok txt ->
   set_servers_csv nf ifs flags cudp ctcp [] txt = Ok l /\
   (forall l', set_servers_csv nf ifs flags cudp ctcp [] txt = Ok l' -> get_servers_csv nf l' = Ok txt).
-Proof. exact csv_fixpoint_plain_pairwise. Qed.
-Print Assumptions C16_csv_fixpoint_partial.
+Proof. exact csv_fixpoint_pairwise. Qed.
+Print Assumptions C16_csv_fixpoint.
+
+(* the text of one server, as the theorem sees it: rendering never fails inside the domain *)
+Theorem C16_csv_renders : forall nf ifs l,
+  Forall (server_ok nf ifs) l -> get_servers_csv nf l = Ok (joined (map (text_of nf) l)).
+Proof. exact csv_is_joined. Qed.
+Print Assumptions C16_csv_renders.
 
 Theorem C16_csv_fixpoint_inhabited :
   exists txt, get_servers_csv inet_fns ex_servers = Ok txt /\
@@ -125,17 +136,25 @@ Theorem C16_csv_uri_example :
 Proof. exact (conj witness_uri_roundtrip fixed_brlan_roundtrip). Qed.
 Print Assumptions C16_csv_uri_example.
 
-Theorem C16_csv_fixpoint_refuted : get_servers_csv nf [srv_alias] = Err ARES_EBADNAME.
+Theorem C16_csv_fixpoint_refuted :
+  set_servers_csv nf (Some vif) 0 5353 0 [] (B "fe80::2%eth0:1") = Ok [srv_alias] /\
+  get_servers_csv nf [srv_alias] = Err ARES_EBADNAME.
 Proof. exact witness_csv_unrenderable. Qed.
 Print Assumptions C16_csv_fixpoint_refuted.
 
-(* C16_dup.  Full statement: dup c agrees with c on every covered field, on the local device /
-   addresses / socket functions, and on the ordered server list.  Proved for chan_wf channels
-   whose servers use the plain text form (one port for UDP and TCP, premise addr_good per
-   address), are pairwise different, and respect ARES_FLAG_PRIMARY.  Missing: servers with
-   differing ports (dns:// form).  Refuted instance: C16_csv_fixpoint_refuted (interface name
-   the URI form cannot carry). *)
-Theorem C16_dup_partial : forall nf g e src d,
+Theorem C16_csv_sitelocal_refuted :
+  get_servers_csv nf [srv_sitelocal] = Ok (B "[fec0::1]:53") /\
+  set_servers_csv nf (Some vif) 0 0 0 [] (B "[fec0::1]:53") = Ok [].
+Proof. exact witness_csv_sitelocal. Qed.
+Print Assumptions C16_csv_sitelocal_refuted.
+
+(* C16_dup: dup c agrees with c on every covered field, on the local device / addresses / socket
+   functions, and on the ordered server list, for chan_wf channels (what ares_init_options
+   produces, C16_init_gives_wf) whose servers are in the domain of the text form (server_ok, both
+   the plain and the dns:// form), pairwise different, and respect ARES_FLAG_PRIMARY.  Outside that
+   domain ares_dup fails or loses servers: C16_csv_fixpoint_refuted, C16_csv_sitelocal_refuted and
+   the open findings of findings/C16.json. *)
+Theorem C16_dup : forall nf g e src d,
   chan_wf src -> (has (c_optmask src) B_DOMAINS = true -> c_domains src <> []) ->
   Forall (server_ok nf (c_ifs src)) (c_servers src) ->
   (forall cu ct, distinct cu ct (c_servers src)) ->
@@ -145,4 +164,4 @@ Theorem C16_dup_partial : forall nf g e src d,
   c_ldev d = c_ldev src /\ c_lip4 d = c_lip4 src /\ c_lip6 d = c_lip6 src /\ c_ifs d = c_ifs src /\
   (has (c_optmask src) B_SERVERS = true -> c_servers d = c_servers src).
 Proof. exact dup_effective. Qed.
-Print Assumptions C16_dup_partial.
+Print Assumptions C16_dup.
